@@ -7,7 +7,9 @@
 package wire
 
 import (
+	"context"
 	"encoding/json"
+	"errors"
 	"fmt"
 	"io"
 	"strings"
@@ -16,6 +18,7 @@ import (
 
 	"github.com/DrmagicE/gmqtt"
 	"github.com/DrmagicE/gmqtt/config"
+	"github.com/DrmagicE/gmqtt/persistence/queue"
 	"github.com/DrmagicE/gmqtt/server"
 
 	"verifharness/inproc"
@@ -209,6 +212,27 @@ func Execute(sc *Scenario, extra ...server.Options) (*Run, []inproc.Event) {
 		"maxinflight": int(cfg.MQTT.MaxInflight), "maxqueued": cfg.MQTT.MaxQueuedMsg, "srvrecvmax": int(cfg.MQTT.ReceiveMax),
 		"srvaliasmax": int(cfg.MQTT.TopicAliasMax), "srvmaxpkt": int(cfg.MQTT.MaxPacketSize),
 		"msgexpiry": sc.Cfg.MsgExpiry, "sessexpiry": int(cfg.MQTT.SessionExpiry / time.Second)})
+	if len(extra) == 0 {
+		// OnMsgDropped is part of the observable behaviour ("dropped and reported"): log it as an event
+		extra = []server.Options{server.WithHook(server.Hooks{OnMsgDropped: func(ctx context.Context, clientID string, msg *gmqtt.Message, err error) {
+			reason := "other"
+			switch {
+			case errors.Is(err, queue.ErrDropExpired):
+				reason = "expired"
+			case errors.Is(err, queue.ErrDropExpiredInflight):
+				reason = "expiredinflight"
+			case errors.Is(err, queue.ErrDropQueueFull):
+				reason = "full"
+			case errors.Is(err, queue.ErrDropExceedsMaxPacketSize):
+				reason = "toolarge"
+			}
+			tag := string(msg.Payload)
+			if i := strings.IndexByte(tag, '.'); i >= 0 {
+				tag = tag[:i]
+			}
+			r.Rec.Log(inproc.Event{"e": "dropped", "cid": clientID, "tag": tag, "qos": int(msg.QoS), "reason": reason})
+		}})}
+	}
 	b, err := inproc.Start(inproc.Options{Cfg: cfg, Rec: r.Rec, Server: extra})
 	if err != nil {
 		r.Fatal = "broker start: " + err.Error()
